@@ -10,8 +10,9 @@
 (* converter.                                                              *)
 (***************************************************************************)
 EXTENDS UnionCodec, Json
-CONSTANTS Family,        \* "obj" | "obj2" | "mixed" | "disc"
-          MinVars, MaxVars
+CONSTANTS Family,        \* "obj" | "obj2" | "mixed" | "disc" | "extra"
+          MinVars, MaxVars,
+          WithExtra      \* BOOLEAN: additionally emit the 2-variant unions of the "extra" family in this run
 VARIABLES u, done
 
 M3 == {"abs", "opt", "req"}
@@ -20,6 +21,11 @@ ObjTypes2 == {Obj(<<x, y, "abs">>) : x \in M3, y \in M3}
 MixedTypes == {Prim("str"), Prim("int"), Prim("float"), Prim("bool"),
                ListOf("str"), ListOf("int"), MapOf("str"), MapOf("int"), AnyMap,
                Obj(<<"req", "abs", "abs">>), Obj(<<"opt", "abs", "abs">>), Obj(<<"req", "req", "abs">>)}
+
+\* required-and-nullable fields: object types over {a,b} with modes abs/opt/req/rnul
+M4 == M3 \cup {"rnul"}
+ObjNullTypes == {Obj(<<x, y, "abs">>) : x \in M4, y \in M4}
+HasRnul(T) == \E i \in 1..3 : T.f[i] = "rnul"
 
 InjSeqs(Sx, n) == {s \in [1..n -> Sx] : \A i, j \in 1..n : i # j => s[i] # s[j]}
 Sizes == MinVars..MaxVars
@@ -30,21 +36,36 @@ FullMap(n) == [i \in 1..n |-> <<Tag(i), i>>]
 Discs(n) == {[mode |-> "complete", prop |-> "kind", mapping |-> FullMap(n)]}
             \cup {[mode |-> "partial", prop |-> "kind", mapping |-> SelectSeq(FullMap(n), LAMBDA e : e[2] # k)] : k \in 1..n}
 
-Unions ==
+\* a mapping need not be injective: "multi" maps a second value (listed last) to the first variant
+MultiDisc(n) == [mode |-> "multi", prop |-> "kind", mapping |-> FullMap(n) \o <<<<"t1b", 1>>>>]
+
+\* the "extra" family: (a) undiscriminated object unions in which at least one variant has a required nullable field,
+\* (b) discriminated unions with a non-injective mapping
+ExtraUnions(sizes) ==
+  {[vars |-> s, nullable |-> FALSE, disc |-> NoDisc] :
+      s \in {x \in UNION {InjSeqs(ObjNullTypes, n) : n \in sizes} : \E i \in 1..Len(x) : HasRnul(x[i])}}
+  \cup UNION {{[vars |-> s, nullable |-> FALSE, disc |-> MultiDisc(n)] : s \in InjSeqs(ObjTypes2, n)} : n \in sizes}
+
+BaseUnions ==
   CASE Family = "obj"   -> {[vars |-> s, nullable |-> FALSE, disc |-> NoDisc] : s \in UNION {InjSeqs(ObjTypes3, n) : n \in Sizes}}
     [] Family = "obj2"  -> {[vars |-> s, nullable |-> FALSE, disc |-> NoDisc] : s \in UNION {InjSeqs(ObjTypes2, n) : n \in Sizes}}
     [] Family = "mixed" -> {[vars |-> s, nullable |-> nl, disc |-> NoDisc] : s \in UNION {InjSeqs(MixedTypes, n) : n \in Sizes}, nl \in BOOLEAN}
     [] Family = "disc"  -> UNION {{[vars |-> s, nullable |-> FALSE, disc |-> d] : s \in InjSeqs(ObjTypes2, n), d \in Discs(n)} : n \in Sizes}
+    [] Family = "extra" -> ExtraUnions(Sizes)
+Unions == BaseUnions \cup (IF WithExtra THEN ExtraUnions({2}) ELSE {})
 
 \* ---- conforming instances of a variant (canonical: exactly its declared keys, every subset of the optional ones).
 \* TLC cannot build a SET of trees of different JSON types (it would have to compare them), so instances are
 \* enumerated as homogeneous descriptors [kind, keys, tag] and turned into trees one at a time.
-ObjPayload(K, dp, tag) ==
-  O(SelectSeq(<<KV("a", S("va")), KV("b", S("vb")), KV("c", S("vc"))>>, LAMBDA e : e.k \in K)
+\* keys in N carry an explicit null
+ObjPayload(K, N, dp, tag) ==
+  O(SelectSeq(<<KV("a", IF "a" \in N THEN Null ELSE S("va")), KV("b", IF "b" \in N THEN Null ELSE S("vb")),
+                KV("c", IF "c" \in N THEN Null ELSE S("vc"))>>, LAMBDA e : e.k \in K)
     \o (IF dp = "-" THEN <<>> ELSE <<KV(dp, S(tag))>>))
 
-ObjId(K, tag) == [kind |-> "obj", keys |-> K, tag |-> tag]
-Lit(x)        == [kind |-> "lit", keys |-> {}, tag |-> x]
+ObjIdN(K, N, tag) == [kind |-> "obj", keys |-> K, nulls |-> N, tag |-> tag]
+ObjId(K, tag) == ObjIdN(K, {}, tag)
+Lit(x)        == [kind |-> "lit", keys |-> {}, nulls |-> {}, tag |-> x]
 LitTree(x) ==
   CASE x = "s:va" -> S("va")  [] x = "s:5" -> S("5")
     [] x = "i:0" -> I(0)      [] x = "i:7" -> I(7)
@@ -54,10 +75,10 @@ LitTree(x) ==
     [] x = "m:" -> O(<<>>)    [] x = "m:x=va" -> O(<<KV("x", S("va"))>>)  [] x = "m:a=va" -> O(<<KV("a", S("va"))>>)
     [] x = "m:x=7" -> O(<<KV("x", I(7))>>)  [] x = "m:a=va,x=T" -> O(<<KV("a", S("va")), KV("x", B(TRUE))>>)
     [] x = "null" -> Null
-Tree(id, dp) == IF id.kind = "obj" THEN ObjPayload(id.keys, IF id.tag = "-" THEN "-" ELSE dp, id.tag) ELSE LitTree(id.tag)
+Tree(id, dp) == IF id.kind = "obj" THEN ObjPayload(id.keys, id.nulls, IF id.tag = "-" THEN "-" ELSE dp, id.tag) ELSE LitTree(id.tag)
 
 Instances(T, tag) ==
-  CASE T.k = "obj"   -> {ObjId(WithMode(T, "req") \cup X, tag) : X \in SUBSET WithMode(T, "opt")}
+  CASE T.k = "obj"   -> {ObjIdN(Required(T, "-") \cup X, N, tag) : X \in SUBSET WithMode(T, "opt"), N \in SUBSET WithMode(T, "rnul")}
     [] T.k = "str"   -> {Lit("s:va"), Lit("s:5")}
     [] T.k = "int"   -> {Lit("i:0"), Lit("i:7")}
     [] T.k = "float" -> {Lit("f:1.5"), Lit("f:2.0")}
@@ -72,7 +93,8 @@ PayloadIds(un) ==
   LET n == Len(un.vars) IN
   IF un.disc.mode = "none"
     THEN UNION {Instances(un.vars[i], "-") : i \in 1..n} \cup (IF un.nullable THEN {Lit("null")} ELSE {}) \cup {Lit("m:x=7")}
-    ELSE UNION {Instances(un.vars[i], Tag(j)) : i \in 1..n, j \in 1..n} \cup {Lit("m:x=7"), ObjId({"a"}, "-")}
+    ELSE UNION {Instances(un.vars[i], tg) : i \in 1..n, tg \in {Tag(j) : j \in 1..n} \cup {un.disc.mapping[m][1] : m \in 1..Len(un.disc.mapping)}}
+         \cup {Lit("m:x=7"), ObjId({"a"}, "-")}
 
 Case(p, un) ==
   LET o == ImplChoose(p, un)
